@@ -293,8 +293,8 @@ static Level fam_FD(int ncorpus, int maxinc, int maxgaps) {
 int main(int argc, char **argv) {
   drv::Args args = drv::Args::parse(argc, argv); bool T = args.thorough();
   if (args.prop != "C05" && args.prop != "C06" && args.prop != "C17" && args.prop != "C19") { fprintf(stderr, "ERROR: unknown property\n"); return 2; }
-  std::vector<Level> L = {fam_curated(100), fam_FA(2), fam_FC(1, 16), fam_FB(2), fam_FD(9, 1, 3), fam_FB(3)};
-  if (T) { L.push_back(fam_FC(2, 8)); L.push_back(fam_FA(3)); L.push_back(fam_FD(9, 2, 5)); }
+  std::vector<Level> L = {fam_curated(100), fam_FA(2), fam_FC(1, 16), fam_FB(2), fam_FD(11, 1, 3), fam_FB(3)};
+  if (T) { L.push_back(fam_FC(2, 8)); L.push_back(fam_FA(3)); L.push_back(fam_FD(11, 2, 5)); }
   size_t maxl = 5; int horizon = T ? 600 : 300; size_t max_states = T ? 400000 : 120000;
   std::string prop = args.prop;
   return drv::run<Case>(args, L, [=](const Case &c, vf::Stats &st) { explore(c, prop, st, maxl, horizon, max_states); }, {}, 60);
